@@ -95,7 +95,7 @@ func (kd *kind) compareHeld(keys []kv, vals []int, m *model) (class, what string
 	for i, k := range keys {
 		idx, ok := kd.index[k]
 		if !ok || !m.present[idx] {
-			set("spurious-key", fmt.Sprintf("holds key %s (value %d) which was not fed; model %s", kd.str(k), vals[i], m.String(kd)))
+			set("spurious-key", fmt.Sprintf("holds key %s (value %s) which was not fed; model %s", kd.str(k), kd.vstr(vals[i]), m.String(kd)))
 			continue
 		}
 		if seen[idx] {
@@ -104,12 +104,12 @@ func (kd *kind) compareHeld(keys []kv, vals []int, m *model) (class, what string
 		}
 		seen[idx] = true
 		if vals[i] != m.sum[idx] {
-			set("wrong-fold", fmt.Sprintf("key %s=%s has value %d, fold of the fed values is %d", roleNames[idx], kd.str(k), vals[i], m.sum[idx]))
+			set("wrong-fold", fmt.Sprintf("key %s=%s has value %s, fold of the fed values is %s", roleNames[idx], kd.str(k), kd.vstr(vals[i]), kd.vstr(m.sum[idx])))
 		}
 	}
 	for k := 0; k < nKeys; k++ {
 		if m.present[k] && !seen[k] {
-			set("key-lost", fmt.Sprintf("key %s=%s (fold %d) is not held; model %s", roleNames[k], kd.str(kd.keys[k]), m.sum[k], m.String(kd)))
+			set("key-lost", fmt.Sprintf("key %s=%s (fold %s) is not held; model %s", roleNames[k], kd.str(kd.keys[k]), kd.vstr(m.sum[k]), m.String(kd)))
 		}
 	}
 	return
@@ -189,7 +189,7 @@ func (s *frameSpace) run(h hist) (id stateID, ok bool) {
 		}
 	}()
 	kd := s.kd
-	cf := exec.VerifC09MakeCombiningFrame(kd.typ, addFunc, s.initCap, s.scratch)
+	cf := exec.VerifC09MakeCombiningFrame(kd.typ, kd.comb, s.initCap, s.scratch)
 	var m model
 	n := int(h.n)
 	lastResized, midBatch := false, false
@@ -203,7 +203,7 @@ func (s *frameSpace) run(h hist) (id stateID, ok bool) {
 			prev := m
 			cf.Combine(s.frames[h.ops[i]])
 			for _, r := range o.rows {
-				m.add(r)
+				m.add(kd, r)
 			}
 			if c1 := cf.Cap(); c1 != c0 {
 				resized = true
@@ -306,7 +306,7 @@ func atomicMax(p *int64, v int64) {
 func rowsString(kd *kind, keys []kv, vals []int) []string {
 	out := make([]string, len(keys))
 	for i := range keys {
-		out[i] = fmt.Sprintf("%s:%d", kd.str(keys[i]), vals[i])
+		out[i] = fmt.Sprintf("%s:%s", kd.str(keys[i]), kd.vstr(vals[i]))
 	}
 	return out
 }
@@ -317,7 +317,7 @@ func slotsString(kd *kind, d slotDump) map[string]interface{} {
 		if h == 0 {
 			slots[i] = "-"
 		} else {
-			slots[i] = fmt.Sprintf("hits=%d %s:%d", h, kd.str(d.keys[i]), d.vals[i])
+			slots[i] = fmt.Sprintf("hits=%d %s:%s", h, kd.str(d.keys[i]), kd.vstr(d.vals[i]))
 		}
 	}
 	return map[string]interface{}{"cap": d.s.Cap, "len": d.s.Len, "threshold": d.s.Threshold, "slots": slots}
